@@ -24,9 +24,12 @@ THEOREM_MODULE = "NemoVerif.Theorems.C06"
 RULE = ("program: main + 1..5 flows in a call DAG (each flow either only activated or only started/awaited), bodies from "
         "match / start action / await action / start|await|activate flow / and-or groups / when-or when-else / abort / "
         "StopFlow / FinishFlow / deactivate / early-restart label, nesting depth <= 4, 15 % with a conflict cluster (2-3 flows matching the same event and then "
-        "starting an action), 8 % of the programs with >= 2 activated flows mutually activating; history: 3..10 (quick) / up to 30 "
+        "starting an action), 8 % of the programs with >= 2 activated flows mutually activating, 35 % with a dying-sender race cluster "
+        "(two flows waiting for the same event: one ends the other's parent / the other itself - awaited by reference, or-group, when, StopFlow, FinishFlow, "
+        "failing - while the other queues activate / start / await / an action; twin activators ending with the activated flow; hand-over between two activators); history: 3..10 (quick) / up to 30 "
         "(thorough) items drawn from plain events and action Started/Finished events for already started actions "
-        "(late, duplicated, after Stop, or never). non-trivial = at least one recorded outermost abort/finish call whose "
+        "(late, duplicated, after Stop, or never), race programs in 60 % with the race event followed later by the event that ends the holder of the activation, "
+        "20 % of the histories with clock ticks > 5 s (clean-up of ended instances runs inside the history). non-trivial = at least one recorded outermost abort/finish call whose "
         "instance had a child or an action; distinct = distinct (program, history) JSON.")
 TRUSTED_BASE = [
     "record/replay harness harness/props/C06.py (monkeypatched wrappers, abstract-state snapshot, uid renaming) + Lean driver Drive/C06.lean",
